@@ -960,6 +960,25 @@ int main(int argc, char** argv)
                     }
                 }
             }
+            // Staging seeds: a transaction (small / size 4, which is individually oversized under c2s3a0) that enters main
+            // through a committed staging, alone or next to an older main transaction; BFS continues from there, so what
+            // CommitStaging carries over (counters, cached oversize status) is probed by later removals within the quick depth.
+            for (uint8_t z = 0; z < 2; z++) {
+                for (int pre = 0; pre < 2; pre++) {
+                    for (int fin = 0; fin < 2; fin++) {
+                        History h;
+                        if (pre) h.push_back({ADD, 0, 0});
+                        h.push_back({STAGE, 0, 0});
+                        h.push_back({ADD, 1, z});
+                        if (fin) h.push_back({COMMIT, 0, 0});
+                        if (!uniq.insert(h).second) continue;
+                        Node par;
+                        par.h.assign(h.begin(), h.end() - 1);
+                        seed_parents.push_back(par);
+                        seed_tasks.push_back({(uint32_t)seed_parents.size() - 1, h.back()});
+                    }
+                }
+            }
             Merged mg;
             run_tasks(cfg, seed_parents, seed_tasks, mg, total, scratch);
             size_t nseeds = 0;
